@@ -29,14 +29,14 @@ def make_cases(chk):
         pairs = small + rng.sample(rest, min(len(rest), 260))
     else:
         big = [p for p in pairs if gen.n_decisions(p[0]) + gen.n_decisions(p[1]) > 4]
-        keep = set(map(id, rng.sample(big, min(len(big), 3000))))
+        keep = set(map(id, big))
         pairs = [p for p in pairs if gen.n_decisions(p[0]) + gen.n_decisions(p[1]) <= 4 or id(p) in keep]
     for i, (sf, sg) in enumerate(pairs):
         n, m, p = rng.choice([1, 2, 2, 3]), rng.choice([1, 2, 3]), rng.choice([1, 2])
         cases.append(make_case("b%d" % i, sf, sg, n, m, p, 2, rng, order=rng.choice(["dfs", "bfs"])))
     # K = 4
-    shapes4 = gen.shapes_upto(1, 4) + list(rng.sample(gen.shapes_exact(2, 4), 12 if quick else 60))
-    for i in range(40 if quick else 400):
+    shapes4 = gen.shapes_upto(1, 4) + list(rng.sample(gen.shapes_exact(2, 4), 12 if quick else 200))
+    for i in range(40 if quick else 2500):
         sf, sg = rng.choice(shapes4), rng.choice(shapes4)
         n, m, p = rng.choice([1, 2, 3]), rng.choice([1, 2]), rng.choice([1, 2])
         cases.append(make_case("q%d" % i, sf, sg, n, m, p, 4, rng))
